@@ -38,6 +38,14 @@ impl ExpressionTemplate {
     { unimplemented!() }
 }
 
+// `Rewriter::new(root).walk_expression(&mut expr)` (src/ast/rewrite.rs + walk.rs, proved in unit rewrite_paths): here an
+// uninterpreted function of (root, expression)
+pub uninterp spec fn spec_paths_rewritten(root: VPath, e: Expression) -> Expression;
+#[verifier::external_body]
+pub fn verif_rewrite_paths(root: &VPath, expr: &mut Expression)
+    ensures *final(expr) == spec_paths_rewritten(*root, *old(expr))
+{ unimplemented!() }
+
 // One piece of a template: a literal, or an argument / embedded expression followed by `Render`.  Like every
 // translate_* function it only appends.
 //@ extract src/build/opcode/translate.rs :: impl AST :: fn translate_template_part
@@ -48,6 +56,7 @@ impl ExpressionTemplate {
 //@   subst "let part: String = s.into_iter().map(|c| c.to_string()).collect();" => "let part: String = verif_chars_to_string(s);"
 //@   subst all ".into()" => ".vinto()"
 //@   subst all "Self::translate_expr" => "translate_expr"
+//@   subst? "Rewriter::new(root).walk_expression(&mut expr);" => "verif_rewrite_paths(root, &mut expr);"
 //@   sig <<<
         requires
             // the two `unreachable!()`s and the `unwrap()` (discharged for the list form in unit fmt_arms)
@@ -60,12 +69,15 @@ impl ExpressionTemplate {
                                                 && (final(ops).ops@.last() matches Op::Val(Primitive::Str(t)) && t@ == cs@),
                 TemplatePart::PlaceHolder(_) => code_at(old(elems).rest@[0], final(ops).ops@, old(ops).ops@.len() as int, final(ops).ops@.len() - 1)
                                                 && final(ops).ops@.last() == Op::Render,
-                TemplatePart::Expression(e) => code_at(e, final(ops).ops@, old(ops).ops@.len() as int, final(ops).ops@.len() - 1)
+                // an embedded expression is parsed out of the template only now: its import / include paths are rewritten relative to
+                // the file first (fix a0be907; the rewriter itself is unit rewrite_paths), then it is translated
+                TemplatePart::Expression(e) => code_at(spec_paths_rewritten(*root, e), final(ops).ops@, old(ops).ops@.len() as int, final(ops).ops@.len() - 1)
                                                 && final(ops).ops@.last() == Op::Render,
             },
             part is PlaceHolder ==> final(elems).rest@ == old(elems).rest@.drop_first(),
             !(part is PlaceHolder) ==> final(elems).rest@ == old(elems).rest@,
 //@   >>>
+//@   mutant template_expr_paths_not_rewritten "verif_rewrite_paths(root, &mut expr);" => "" expect translate_template_part
 //@   mutant template_expr_not_rendered "Self::translate_expr(expr, ops, root); ops.push(Op::Render, pos);" => "Self::translate_expr(expr, ops, root); ops.push(Op::Noop, pos);" expect translate_template_part
 //@ end
 
